@@ -2,14 +2,19 @@
    Statements only; proofs in proofs/PegProofs.v, about coq/gen/Grammar.v — the grammar as generated
    from crates/core/src/parser/grammar.pest on this run — under the pest semantics of model/Peg.v.
 
-   PARTIAL.  Proved: which characters are whitespace to the grammar, and that the whitespace star — the
-   only thing a trim marker on a delimiter adds to it (the start rules put a whitespace star before
-   the marked opening delimiter, the end rules after the marked closing one) and what separates a
-   delimiter from its content —
-   consumes exactly the maximal run of space, tab, LF, CR and nothing else.
+   PARTIAL.  Proved, for the generated grammar and every text:
+     - which characters are whitespace to it, and that the whitespace star — the only thing a trim
+       marker on a delimiter adds to it (the start rules put a whitespace star before the marked
+       opening delimiter, the end rules after the marked closing one) and what separates a
+       delimiter from its content — consumes exactly the maximal run of space, tab, LF, CR and
+       nothing else, in every atomicity mode in which the grammar uses it;
+     - a text that contains no brace is exactly ONE Raw element spanning all of it followed by EOI
+       (no_markup_is_one_raw): with parser.rs's `Raw -> Text(span)` and Text::render_to's plain
+       write this is "a template without markup renders to itself"; the empty text has no element.
    Not proved (decided by the structural oracle and the pair-stream correspondence of
-   tools/props/c03.py on every generated template): that Raw is the maximal markup-free text, that
-   text is emitted byte-for-byte, the span recovery of raw blocks and the discarding of comments. *)
+   tools/props/c03.py on every generated template): the same for texts with stray single braces
+   (a brace not followed by a brace or percent sign), that Raw is in general the maximal markup-free
+   text, the span recovery of raw blocks and the discarding of comments. *)
 From LV Require Import Base Peg Grammar PegProofs.
 
 Theorem whitespace_rule : forall fuel la s pos, 6 <= fuel ->
@@ -29,6 +34,25 @@ Theorem drop_ws_is_the_maximal_run : forall s,
   exists w, s = w ++ drop_ws s /\ forallb is_ws w = true /\ ws_head (drop_ws s) = false /\ length w = count_ws s.
 Proof. exact PegProofs.drop_ws_spec. Qed.
 
+Theorem whitespace_run_exact_any_mode : forall at_ la s pos fuel, at_ <> NonAtomic -> 8 + length s <= fuel ->
+  ev liquid_grammar liquid_ws fuel at_ la (PStar (PRef r_WHITESPACE)) s pos =
+  Some (Some (drop_ws s, pos + count_ws s, [])).
+Proof. exact PegProofs.ws_star_any. Qed.
+(* a template without markup: one Raw element covering the whole text, then EOI *)
+Theorem no_markup_is_one_raw : forall c t fuel, no_brace (c :: t) = true -> 40 + length t <= fuel ->
+  parse liquid_grammar liquid_ws fuel r_LaxLiquidFile (c :: t) =
+  Some (Some ([], S (length t),
+              [mkTok r_LaxLiquidFile 0 (S (length t)); mkTok r_Raw 0 (S (length t)); mkTok eoi_id (S (length t)) (S (length t))])).
+Proof. exact PegProofs.no_markup_is_one_raw. Qed.
+Theorem empty_text_is_no_element : forall fuel, 40 <= fuel ->
+  parse liquid_grammar liquid_ws fuel r_LaxLiquidFile [] = Some (Some ([], 0, [mkTok r_LaxLiquidFile 0 0; mkTok eoi_id 0 0])).
+Proof. exact PegProofs.empty_text_is_no_element. Qed.
+(* a start delimiter cannot match where no brace follows (so neither an output tag nor a tag can start) *)
+Theorem no_delimiter_without_brace : forall which at_ la s pos fuel, which = r_TagStart \/ which = r_ExpressionStart ->
+  at_ <> NonAtomic -> no_brace s = true -> 12 + length s <= fuel ->
+  ev liquid_grammar liquid_ws fuel at_ la (PRef which) s pos = Some None.
+Proof. exact PegProofs.start_fails. Qed.
+
 (* non-vacuity: "a \t\r\n{{- 1 -}}\n b" lexes to Raw "a", the output tag from 1 to 15, Raw "b": both
    whitespace runs, tab and CRLF included, belong to the trimmed tag *)
 Example c03_nonvacuous :
@@ -43,3 +67,7 @@ Proof. vm_compute. reflexivity. Qed.
 Print Assumptions whitespace_rule.
 Print Assumptions whitespace_run_exact.
 Print Assumptions drop_ws_is_the_maximal_run.
+Print Assumptions whitespace_run_exact_any_mode.
+Print Assumptions no_markup_is_one_raw.
+Print Assumptions empty_text_is_no_element.
+Print Assumptions no_delimiter_without_brace.
